@@ -593,6 +593,10 @@ class Limbs:
             return Val(padd(L.p, R.p), max(L.ub, R.ub))              # at most one of the two is non-zero
         M = 1 << (bits - (1 if signed else 0))
         why = "%s at %d bits" % (show(e)[:70], bits)
+        if set(L.p) <= {()} and set(R.p) <= {()} and L.neg is None and R.neg is None and op in ("&", "|", "^", "-") and not signed:
+            a_, b_ = L.p.get((), 0), R.p.get((), 0)
+            c_ = {"&": a_ & b_, "|": a_ | b_, "^": a_ ^ b_, "-": (a_ - b_) & ((1 << bits) - 1)}[op]
+            return Val(pconst(c_), c_)                          # constants fold (unsigned subtraction wraps)
         if op == "+":
             v = Val(padd(L.p, R.p), L.ub + R.ub, (None, [L.p, R.p], None) if L.ub < M and R.ub < M else None)
             return self.fit(v, bits, why) if not signed else self._signed_fit(v, M, why)
@@ -728,7 +732,7 @@ class Limbs:
                     self.store(["var", d[1]], self.ev(d[2], fr), fr)
             return
         if k == "return":
-            if fr.prefix == "":
+            if fr.prefix == "" and not getattr(self, "eval_root_return", False):
                 return                     # the root's return value is not part of any specification here
             fr.ret = self.ev(e[1], fr) if e[1] is not None else ZERO
             return
